@@ -313,6 +313,18 @@ func runC13(ctx *core.Ctx) {
 		}
 		ctx.Check(okList, "T5", shortFn(scan)+"#list-then-remove", scan.Pos(), "all names of the sub-directory are read (Readdirnames(-1)) before the first removal, so removals cannot disturb the listing and every stale entry is seen")
 	}
+	// ---- T6 (dependency): the writer replaces the record
+	if lw := p.Func("lockedfile", "Write"); lw != nil {
+		okT := false
+		for _, c := range graph(p, lw).Calls(core.ModPath + "/lockedfile.OpenFile") {
+			if fl, ok := ssax.ConstInt(c.Call.Args[1]); ok && fl&osFlag(p, "O_TRUNC") != 0 {
+				okT = true
+			}
+		}
+		ctx.Check(okT, "T6", "lockedfile.Write#replaces", lw.Pos(), "lockedfile.Write, through which the trim record is written, opens with O_TRUNC: a damaged or longer old record is replaced, not overlaid (an overlaid record stays unparsable or in the future, and every Trim call then sweeps the whole cache)")
+	} else {
+		ctx.Unknown("T6", "lockedfile.Write#replaces", token.NoPos, "lockedfile.Write not found")
+	}
 	// ---- T6
 	wr := g.Calls(core.ModPath + "/lockedfile.Write")
 	if len(wr) != 1 {
